@@ -1,6 +1,6 @@
-use super::{builder::FileLogWriterBuilder, config::FileLogWriterConfig, state::State};
 #[cfg(feature = "async")]
-use crate::util::{ASYNC_FLUSH, ASYNC_SHUTDOWN};
+use super::state::AsyncMessage;
+use super::{builder::FileLogWriterBuilder, config::FileLogWriterConfig, state::State};
 use crate::{
     util::{buffer_with, eprint_err, io_err, ErrorCode},
     LogfileSelector, ZERO_DURATION,
@@ -59,7 +59,7 @@ impl std::fmt::Debug for SyncHandle {
 #[cfg(feature = "async")]
 pub(super) struct AsyncHandle {
     am_state: Arc<Mutex<State>>,
-    sender: Sender<Vec<u8>>,
+    sender: Sender<AsyncMessage>,
     mo_thread_handle: Mutex<Option<JoinHandle<()>>>,
     a_pool: Arc<ArrayQueue<Vec<u8>>>,
     message_capa: usize,
@@ -110,7 +110,9 @@ impl AsyncHandle {
         })?;
         #[cfg(flexi_logger_verif)]
         crate::verif_hooks::sched_point("async_send");
-        self.sender.send(buffer).map_err(|_e| io_err("Send"))
+        self.sender
+            .send(AsyncMessage::Data(buffer))
+            .map_err(|_e| io_err("Send"))
     }
 
     fn pop_buffer(&self) -> Vec<u8> {
@@ -178,7 +180,7 @@ impl StateHandle {
                 crate::verif_hooks::sched_point("async_send");
                 handle
                     .sender
-                    .send(buffer.to_owned())
+                    .send(AsyncMessage::Data(buffer.to_owned()))
                     .map_err(|_e| io_err("Send"))?;
                 Ok(buffer.len())
             }
@@ -245,11 +247,9 @@ impl StateHandle {
             }
             #[cfg(feature = "async")]
             StateHandle::Async(handle) => {
-                let mut buffer = handle.pop_buffer();
-                buffer.extend(ASYNC_FLUSH);
                 #[cfg(flexi_logger_verif)]
                 crate::verif_hooks::sched_point("async_send");
-                handle.sender.send(buffer).ok();
+                handle.sender.send(AsyncMessage::Flush).ok();
             }
         }
         Ok(())
@@ -333,11 +333,9 @@ impl StateHandle {
             }
             #[cfg(feature = "async")]
             StateHandle::Async(handle) => {
-                let mut buffer = handle.pop_buffer();
-                buffer.extend(ASYNC_SHUTDOWN);
                 #[cfg(flexi_logger_verif)]
                 crate::verif_hooks::sched_point("async_send");
-                handle.sender.send(buffer).ok();
+                handle.sender.send(AsyncMessage::Shutdown).ok();
                 if let Ok(ref mut o_th) = handle.mo_thread_handle.lock() {
                     o_th.take().and_then(|th| th.join().ok());
                 }
